@@ -343,6 +343,9 @@ def run_check(mod, tier: str) -> int:
     det_indices = frozenset(range(0, total, stride)[:det_n])
     chunks = [list(range(s, min(total, s + chunk))) for s in range(0, total, chunk)]
     wall_cap = b.get("wall_cap", 900.0)
+    if os.environ.get("VERIF_WALL_CAP"):
+        # (development: a shorter exploration of a tier; the run stops submitting work at the cap and reports what it covered)
+        wall_cap = min(wall_cap, float(os.environ["VERIF_WALL_CAP"]))
     deadline = t0 + wall_cap
 
     agg = Counter()
